@@ -6,22 +6,18 @@
 // show that the postcondition of the constructors determines every field from the modulus, i.e. the constructors
 // return identical parameter sets.
 //
-// FINDING (C08, modulus m == 1): `MontyParams::new_vartime` (and `new`, same expression) compute
+// FINDING (C08, modulus m == 1): `MontyParams::new_vartime` and `MontyParams::new` (same expression) compute
 // `one = ((R - 1) mod m) + 1`, which is R mod m for every odd m >= 3 (R is a unit mod m, lemma_one_def) but is 1,
 // not R mod 1 == 0, for m == 1. So for the modulus 1 `params.one`, `MontyForm::one(params).as_montgomery()` and
 // `pow_bounded_exp(_, 0)` are 1 >= m: not canonical, and `one != zero` although both represent 0 in Z/1Z
 // (checked concretely: U128, modulus 1 -> as_montgomery() == 1, retrieve() == 0, one == zero is false).
-// The contract of `new_vartime` therefore gives `wf` only for m != 1 and states `one == 1` for m == 1; all other
+// The contracts of `new_vartime` / `new` therefore give `wf` only for m != 1 and state `one == 1` for m == 1; all other
 // fields (`wf_rest`) equal their definitions for every odd m.
 //
 // NOT COVERED here:
-//  * `MontyParams::new` (constant-time constructor). Its generic header
-//    `where Uint<LIMBS>: Concat<Output = Uint<WIDE_LIMBS>>, Uint<WIDE_LIMBS>: Split<Output = Uint<LIMBS>>`
-//    type-checks in Verus once the four traits are declared (probed), but (1) tools/gen.py cannot extract trait
-//    declarations, and (2) its callees `Uint::concat` / `Uint::square` / `Uint::split` are generic inherent fns that
-//    collide (E0592) with the per-size hand-written `impl Uint<8|16|32|64> { fn concat }` stubs of l3_karatsuba.
-//    `new` computes `one`, `mod_neg_inv`, `r3` by the same expressions as `new_vartime`; it differs in `rem`,
-//    `square().rem(wide).split()`, `inv_mod2k_vartime`, `leading_zeros` + `from_u32_lt/select_u32`.
+//  * `MontyParams::new` (constant-time constructor) is proved in unit l6_montyform_ct (it needs the `Concat`/`Split`
+//    plumbing of l2_concat); it ensures the same `params_for(ret, modulus)` as `new_vartime` below.
+//    `MontyParams::from_const_params` and `ConstMontyForm` are in unit l6_constmonty.
 //  * `as_montgomery_mut` (hands out `&mut` to the representative: the invariant is the caller's business),
 //    trait impls / operators / `DynMontyMultiplier` / `ConditionallySelectable` / `From<&ConstMontyForm>` (Engine B).
 //  * `from_montgomery` is an unchecked constructor: the result is wf only if the argument is < m (stated as such).
